@@ -139,7 +139,8 @@ let run_dohget parts =
   let l = fld f "l" in
   let base = List.hd (String.split_on_char '-' l) in
   let k = if String.length base >= 8 && String.sub base 0 8 = "fasthttp" then DohFastHttp else DohNetHttp in
-  match doh_get k (bytes_of_hex (fld f "raw")) with
+  (* raw= is the WHOLE query string of the request (everything behind '?') *)
+  match doh_get_query k (bytes_of_hex (fld f "raw")) with
   | DohReject -> "st=http-400 n=0 resp=- upq=- || spec=ok"
   | DohMsg m ->
     (match unpack_msg m with
